@@ -228,6 +228,7 @@ def run(rep, tier):
                 rep.case(('getlabels', which, tuple(held), tuple(req)), any(v not in held for v in req) or held != sorted(held),
                          kind=f'get_labels:{which}:' + ('absent' if any(v not in held for v in req) else 'present'))
         independence(rep, r)
+        independence_empty_registry(rep, r)
         photometry_independence(rep, r)
         photometry_independence(rep, r)
         methods_commute(rep, r, k)
@@ -283,6 +284,41 @@ def independence(rep, r):
             child.to_table(columns=['label', 'child_only', 'renamed'])
         except Exception as e:
             rep.violation('slice-not-independent:to_table', f'to_table failed after independent extra-property operations: {e!r}', {})
+
+
+def independence_empty_registry(rep, r):
+    """(S) the same independence when the catalogue holds NO extra property at the moment it is indexed (every index form): properties
+    added, renamed or computed with name= afterwards on the parent, a child or a sibling appear only there"""
+    cat, img = make_catalog(r)
+    n = len(cat)
+    if n < 3:
+        return
+    with warnings.catch_warnings():
+        warnings.simplefilter('ignore')
+        kids = {'slice': cat[1:], 'int': cat[0], 'list': cat[[0, 2]], 'mask': cat[np.arange(n) % 2 == 0]}
+        who = r.choice(['parent', 'slice', 'list'])
+        tgt = cat if who == 'parent' else kids[who]
+        tgt.add_extra_property('late', np.arange(len(tgt)) * 1.0 if not tgt.isscalar else 1.0)
+        tgt.circular_photometry(3.0, name='latecirc')
+        tgt.rename_extra_property('late', 'late2')
+        rep.case(('indep-empty', who), True, kind=f'independence:empty-registry:{who}')
+        rep.probe_only += 1
+        others = {'parent': cat, **kids}
+        for nm, o in others.items():
+            if o is tgt:
+                continue
+            if list(o.extra_properties) or hasattr(o, 'late2') or hasattr(o, 'latecirc_flux'):
+                rep.violation(f'slice-not-independent:empty-registry:{who}-to-{nm}',
+                              f'a catalogue without extra properties was indexed; extra properties then added on the {who} are listed by the {nm}: '
+                              f'{list(o.extra_properties)}', {'added_on': who, 'seen_on': nm})
+                return
+            try:
+                o.to_table(columns=['label'] + list(o.extra_properties))
+                o.add_extra_property('late2', np.arange(len(o)) * 1.0 if not o.isscalar else 2.0)      # the name is free there
+            except Exception as e:                              # noqa: BLE001
+                rep.violation(f'slice-not-independent:empty-registry:{type(e).__name__}', f'after extra properties were added on the {who}, the {nm} raised {e!r}',
+                              {'added_on': who, 'seen_on': nm})
+                return
 
 
 def methods_commute(rep, r, k=0):
